@@ -381,11 +381,12 @@ func genLimits(g *core.Gen, r *core.Rand, keys []keyT) []caseSpec {
 	// per-script state: the op count and the altstack do not carry over from scriptSig to scriptPubKey
 	// (bare spends with a non-push scriptSig; only without P2SH-form / SIGPUSHONLY)
 	for _, fl := range flagSets {
-		for _, n := range []int{100, 150, 201} {
-			b := buildSpend(r, wBare, cat(rep(0x61, n), []byte{0x51}), randShape(r), fl, nil)
-			out = append(out, caseSpec{class: "gen:limit:opcount-two-scripts:bare", sp: b.finish(nil, rep(0x61, n))})
-			b = buildSpend(r, wBare, cat(rep(0x51, n), rep(0x6d, n/2), rep(0x75, n%2), []byte{0x51}), randShape(r), fl, nil)
-			out = append(out, caseSpec{class: "gen:limit:stack-two-scripts:bare", sp: b.finish(nil, cat(rep(0x51, 1000-n), rep(0x6d, (1000-n)/2), rep(0x75, (1000-n)%2)))})
+		for _, n := range []int{100, 101, 102} {
+			b := buildSpend(r, wBare, cat(rep(0x61, n+100), []byte{0x51}), randShape(r), fl, nil)
+			out = append(out, caseSpec{class: "gen:limit:opcount-two-scripts:bare", sp: b.finish(nil, rep(0x61, n+99))})
+			// the data stack does carry over: 500 pushes in the scriptSig + 499 / 500 / 501 in the scriptPubKey
+			b = buildSpend(r, wBare, rep(0x51, 399+n), randShape(r), fl, nil)
+			out = append(out, caseSpec{class: "gen:limit:stack-two-scripts:bare", sp: b.finish(nil, rep(0x51, 500))})
 		}
 		b := buildSpend(r, wBare, []byte{0x6c}, randShape(r), fl, nil) // FROMALTSTACK
 		out = append(out, caseSpec{class: "gen:limit:altstack-two-scripts:bare", sp: b.finish(nil, []byte{0x51, 0x6b})})
@@ -439,6 +440,20 @@ func genLimits(g *core.Gen, r *core.Rand, keys []keyT) []caseSpec {
 			}
 		}
 	}
+	// stack + altstack limit reached with uncounted pushes and nothing cleaned up (bare / P2SH, flag sets
+	// without CLEANSTACK): 1000 elements succeed, 1001 fail
+	for _, n := range []int{999, 1000, 1001} {
+		for _, fl := range []txscript.ScriptFlags{consensusAll, txscript.ScriptBip16, 0} {
+			for _, w := range []int{wBare, wP2SH} {
+				if w == wP2SH {
+					continue // a 1000-byte redeem script cannot be pushed
+				}
+				add("stack-leave", w, rep(0x51, n), nil, fl)
+				add("stack-leave-alt", w, cat(rep(0x51, 900), rep(0x6b, 100), rep(0x51, n-900)), nil, fl)
+				add("stack-leave-alt-only", w, cat(rep(0x51, 150), rep(0x6b, 150), rep(0x51, n-150)), nil, fl)
+			}
+		}
+	}
 	// initial (witness) stack of 999 / 1000 / 1001 elements: P2WSH has no limit before the first
 	// opcode, tapscript checks the initial stack
 	for _, n := range []int{999, 1000, 1001, 1002} {
@@ -468,7 +483,7 @@ func genLimits(g *core.Gen, r *core.Rand, keys []keyT) []caseSpec {
 					for i := 0; i < k; i++ {
 						ks = append(ks, pushBytes(keys[i%len(keys)].comp)...)
 					}
-					add("opcount-multisig", w, cat(rep(0x61, pad), []byte{0, 0}, ks, pushNum(int64(k)), []byte{0xae, 0x91}), nil, fl)
+					add("opcount-multisig", w, cat(rep(0x61, pad), []byte{0, 0}, ks, pushNum(int64(k)), []byte{0xae}), nil, fl)
 				}
 				// ops in an unexecuted branch count as well
 				add("opcount-dead", w, cat([]byte{0x00, 0x63}, rep(0x61, n-2), []byte{0x68, 0x51}), nil, fl)
@@ -487,24 +502,21 @@ func genLimits(g *core.Gen, r *core.Rand, keys []keyT) []caseSpec {
 				add("elem-initial", w, []byte{0x75, 0x51}, [][]byte{rep(0x02, n)}, fl)
 				add("elem-pushdata4", w, cat(pushWith(0x4e, rep(0x01, n)), []byte{0x75, 0x51}), nil, fl)
 			}
-			// script size 9999 / 10000 / 10001 (P2SH redeem scripts cannot exceed a 520 byte push)
+			// script size 9999 / 10000 / 10001 with few counted ops: 19 x (PUSHDATA2 520 bytes, DROP), one
+			// shorter push, DROP, OP_1 (P2SH redeem scripts cannot exceed a 520 byte push)
 			for _, n := range []int{9999, 10000, 10001} {
-				body := cat(pushBytes(rep(0x07, 500)), []byte{0x75})
 				var sc []byte
-				for len(sc)+len(body)+1 <= n-1 {
-					sc = append(sc, body...)
+				for i := 0; i < 19; i++ {
+					sc = append(sc, pushWith(0x4d, rep(0x07, 520))...)
+					sc = append(sc, 0x75)
 				}
-				for len(sc) < n-1 {
-					sc = append(sc, pushBytes(rep(0x09, minInt(70, n-1-len(sc)-1)))...)
-					if len(sc) < n-1 {
-						sc = append(sc, 0x75)
-					} else {
-						sc = append(sc[:len(sc)-2], 0x61, 0x61)
-						break
-					}
+				left := n - 1 - len(sc)
+				sc = append(sc, pushBytes(rep(0x09, left-2))...)
+				sc = append(sc, 0x75, 0x51)
+				if len(sc) != n {
+					panic("scriptsize builder")
 				}
-				sc = fixLen(sc, n-1)
-				add("scriptsize", w, append(sc, 0x51), nil, fl)
+				add("scriptsize", w, sc, nil, fl)
 			}
 			for _, n := range []int{519, 520, 521} {
 				add("redeemsize", w, cat(pushBytes(rep(0x07, n-5)), []byte{0x75, 0x51}), nil, fl)
@@ -869,26 +881,27 @@ func genSigs(g *core.Gen, r *core.Rand, keys []keyT, n int) []caseSpec {
 				}
 				return [][]byte{b.schnorrSig(plans[2], 0xffffffff, keys), b.schnorrSig(plans[1], 0xffffffff, keys), b.schnorrSig(plans[0], 0xffffffff, keys)}
 			}
-		case tmpl == 7: // sigops budget: k CHECKSIGVERIFYs, small witness (tapscript)
+		case tmpl == 7: // sigops budget: <pk> (2DUP CHECKSIGVERIFY)*k 2DROP 1 — each check costs 50 weight units,
+			// the witness (one signature, optional padding, script, control block) is all the budget there is
 			class = "sigops-budget"
-			kcount := int(r.Pick(1, 2, 3, 4, 5, 8))
+			kcount := int(r.Pick(1, 2, 3, 3, 4, 4, 5, 6, 8, 12))
 			pk := k0.xonly
 			if !tap {
 				pk = k0.comp
 			}
-			// <sig> DUP <pk> CHECKSIGVERIFY ... repeated: one witness signature checked k times
-			script = nil
+			script = pushBytes(pk)
 			for j := 0; j < kcount; j++ {
-				script = append(script, 0x76)
-				script = append(script, pushBytes(pk)...)
-				script = append(script, 0xad)
+				script = append(script, 0x6e, 0xad)
 			}
-			script = append(script, 0x75, 0x51)
+			script = append(script, 0x6d, 0x51)
 			p := sigPlan{key: k0, ht: byte(r.Pick(0, 1))}
 			if !tap {
 				p.ht = 1
 			}
-			padLen := int(r.Pick(0, 0, 10, 40, 45, 50, 51, 100, 200))
+			padLen := int(r.Pick(0, 0, 0, 1, 10, 40, 45, 49, 50, 51, 100, 150, 200))
+			if padLen > 0 {
+				script = cat([]byte{0x7c, 0x75}, script) // SWAP DROP: drops the padding below the signature
+			}
 			mk = func(b *builtSpend) [][]byte {
 				var sig []byte
 				if tap {
@@ -896,17 +909,10 @@ func genSigs(g *core.Gen, r *core.Rand, keys []keyT, n int) []caseSpec {
 				} else {
 					sig = b.ecdsaSig(p, script, keys)
 				}
-				if padLen > 0 && tap {
-					// padding element consumed by an extra DROP to vary the witness size
-					return [][]byte{sig}
+				if padLen > 0 {
+					return [][]byte{rep(0, padLen), sig}
 				}
 				return [][]byte{sig}
-			}
-			if tap && padLen > 0 {
-				script = cat([]byte{0x7c, 0x75}, script) // SWAP DROP: drops the padding below the signature
-				inner := mk
-				mk = func(b *builtSpend) [][]byte { return append([][]byte{rep(0, padLen)}, inner(b)...) }
-				_ = inner
 			}
 		default: // FindAndDelete: the signature itself (or OP_0 for an empty one) occurs in the script
 			class = "findanddelete"
